@@ -163,7 +163,7 @@ def run(ctx):
                    'before it becomes the buffer (tell < getvalue < write < seek(pos) < switch)', ok, loc=ro.loc,
                    path=p.describe() if not ok else None)
         if n == 0:
-            ctx.ob('T9.roll', '%s.rollover' % cls, 'rollover switches self._buffer', False, loc=ro.loc)
+            ctx.unknown('T9.roll', '%s.rollover' % cls, 'no store to self._buffer found', ro.loc)
         wr = prog.resolve(ci, 'write')
         w, paths = paths_of(prog, wr, recv=ci)
         for p in paths:
